@@ -695,3 +695,41 @@ func classifierFacts(cnd ssa.Value, truth bool, depth int) []condFact {
 	}
 	return out
 }
+
+// closureMaker: fn is a private helper with one call site that returns a
+// closure it makes (requestProcessor(...) func()); the call site is returned.
+func closureMaker(p *core.Prog, fn *ssa.Function) ssa.CallInstruction {
+	if fn == nil || fn.Parent() != nil || !p.IsPrivateHelper(fn) || fn.Signature.Results().Len() != 1 {
+		return nil
+	}
+	if _, isFunc := fn.Signature.Results().At(0).Type().Underlying().(*types.Signature); !isFunc {
+		return nil
+	}
+	cs := p.CallersOf(fn)
+	if len(cs) != 1 {
+		return nil
+	}
+	for _, ret := range core.Returns(fn) {
+		for _, src := range phiSources(ret.Results[0]) {
+			if _, ok := src.V.(*ssa.MakeClosure); !ok {
+				return nil
+			}
+		}
+	}
+	return cs[0]
+}
+
+// messageHandlerOf: the function a call belongs to for the purposes of "the
+// message handler": the outermost function, or - when that only makes the
+// processing closure for its single caller - that caller.
+func messageHandlerOf(p *core.Prog, c ssa.CallInstruction) *ssa.Function {
+	h := core.Outermost(c.Parent())
+	for i := 0; i < 3; i++ {
+		site := closureMaker(p, h)
+		if site == nil {
+			break
+		}
+		h = core.Outermost(site.Parent())
+	}
+	return h
+}
